@@ -1,9 +1,14 @@
 """
 C18 — flowsheet connections stay mutually consistent under every rewiring operation.
 
-Adapter for thermosteam/network.py (AbstractUnit / AbstractStream / StreamSequence),
-generator of rewiring histories, and the docking invariant evaluated on the real
-objects.  The Lean model is lean/ThermoVerif/Model/Network.lean.
+Adapter for thermosteam/network.py (AbstractUnit / AbstractStream / AbstractMissingStream /
+StreamSequence), generator of rewiring histories, and the docking invariant evaluated on the
+real objects — streams AND placeholder objects, both with identity.  The Lean model is
+lean/ThermoVerif/Model/Network.lean.
+
+Names on the protocol: `sN` = N-th real stream (creation order), `mN` = N-th placeholder object
+(order of first appearance in a port list; canonical scan unit by unit, ins then outs, port by
+port, after every operation), `p<i|o>.<u>.<idx>` = whatever object sits at that port now.
 """
 from __future__ import annotations
 import itertools, random, warnings
@@ -12,13 +17,19 @@ from harness.core import Case, ImplResult
 PID = 'C18'
 LEAN_MODULES = ['ThermoVerif.Props.C18']
 RULE = ('histories of rewiring operations over a universe of AbstractUnit subclasses with fixed and variable '
-        'port counts and AbstractStreams; generated adaptively on the real objects so that ~90% of operations '
-        'satisfy the stated preconditions; a case is non-trivial when at least one operation changed the '
-        'connectivity; distinct = distinct op sequences')
+        'port counts, AbstractStreams and the placeholder objects the port lists create; generated adaptively on '
+        'the real objects so that ~90% of operations satisfy the stated preconditions (for streams and placeholders '
+        'alike); a case is non-trivial when at least one operation changed the connectivity; distinct = distinct '
+        'op sequences; tags ph-moved:* count histories/operations that carry an existing placeholder object from '
+        'one unit to another')
 ASSUMPTIONS = [
     'Python object identity is modelled by ids; list semantics of `in`, `index`, slice assignment as in CPython',
-    'preconditions of the property are evaluated by the model (pre= flag) at primitive list-operation level',
+    'preconditions of the property are evaluated by the model (pre= flag) at primitive list-operation level, '
+    'for streams and placeholder objects alike (a placeholder assigned to a port must not already be in that list; '
+    'an appended/inserted placeholder must not be docked on that side)',
     'negative indices, stepped slices and auxiliary/superposition streams are not generated',
+    'placeholder objects inside constructor lists are not generated (the code would take them for IDs)',
+    'the placeholders a fixed-size constructor creates and overwrites before returning are unreachable and not observed',
 ]
 TRUSTED = ['Lean 4.33 kernel', 'correspondence harness harness/props/c18.py + Driver/C18.lean',
            'generator reach (see histogram)']
@@ -27,7 +38,7 @@ EXHAUSTIVE = {'quick': False, 'thorough': False}   # the exhaustive part is a su
 net = None
 CLASSES = {}
 # (N_ins, ins_fixed, N_outs, outs_fixed)
-SHAPES = [(2, 1, 1, 1), (1, 0, 2, 1), (2, 1, 2, 0), (1, 1, 1, 1), (0, 0, 1, 0), (3, 0, 3, 1)]
+SHAPES = [(2, 1, 1, 1), (1, 0, 2, 1), (2, 1, 2, 0), (1, 1, 1, 1), (0, 0, 1, 0), (3, 0, 3, 1), (2, 1, 2, 1)]
 
 
 def setup():
@@ -61,11 +72,21 @@ ERRMAP = [(IndexError, 'IndexError'), (RuntimeError, 'RuntimeError'), (ValueErro
           (TypeError, 'TypeError'), (AttributeError, 'TypeError')]
 
 
+def is_stream(x):
+    return isinstance(x, net.AbstractStream)
+
+
+def is_placeholder(x):
+    return isinstance(x, net.AbstractMissingStream)
+
+
 class Universe:
     """The real objects of one case."""
     def __init__(self):
         self.units = []
         self.streams = []      # real streams in creation order
+        self.missing = []      # placeholder objects in order of first appearance (kept alive here)
+        self._mid = {}         # id(obj) -> index in self.missing
         self.shape = []
 
     # -- references ---------------------------------------------------------
@@ -82,10 +103,12 @@ class Universe:
         try:
             if t.startswith('s'):
                 return self.streams[int(t[1:])]
+            if t.startswith('m'):
+                return self.missing[int(t[1:])]
             if t.startswith('p'):
                 k, u, i = t[1:].split('.')
                 return self.seq(k, int(u))._streams[int(i)]
-        except IndexError:
+        except (IndexError, ValueError):
             raise BadRef(t)
         raise BadRef(t)
 
@@ -106,16 +129,26 @@ class Universe:
         known = set(map(id, self.streams))
         u = self.units[-1]
         for x in list(u.ins._streams) + list(u.outs._streams):
-            if isinstance(x, net.AbstractStream) and id(x) not in known:
+            if is_stream(x) and id(x) not in known:
                 self.streams.append(x); known.add(id(x))
+
+    def register(self):
+        """name the placeholder objects that became visible: canonical scan unit by unit, ins then
+        outs, port by port"""
+        for u in self.units:
+            for x in list(u.ins._streams) + list(u.outs._streams):
+                if not is_stream(x) and id(x) not in self._mid:
+                    self._mid[id(x)] = len(self.missing)
+                    self.missing.append(x)
 
     # -- canonical state ------------------------------------------------------
     def name(self, x):
-        if isinstance(x, net.AbstractStream):
+        if is_stream(x):
             for n, s in enumerate(self.streams):
                 if s is x: return f's{n}'
             return '?'
-        return '_'
+        n = self._mid.get(id(x))
+        return '?' if n is None else f'm{n}'
 
     def uname(self, u):
         if u is None: return '-'
@@ -130,32 +163,55 @@ class Universe:
                          f'U{n}.o=[{",".join(self.name(x) for x in u.outs._streams)}]')
         for n, s in enumerate(self.streams):
             parts.append(f's{n}={self.uname(s._source)}>{self.uname(s._sink)}')
+        for n, s in enumerate(self.missing):
+            parts.append(f'm{n}={self.uname(s._source)}>{self.uname(s._sink)}')
         return ' '.join(parts)
 
-    # -- the property itself, on the real objects --------------------------------
+    def pointers(self):
+        """(source, sink) of every registered placeholder, as unit objects"""
+        return [(m._source, m._sink) for m in self.missing]
+
+    # -- the property itself, on the real objects only --------------------------------
     def invariant_failures(self):
-        out = []
-        for n, u in enumerate(self.units):
-            for k, seq, attr, fixed, size in (('i', u.ins, '_sink', u._ins_size_is_fixed, u._N_ins),
-                                               ('o', u.outs, '_source', u._outs_size_is_fixed, u._N_outs)):
-                lst = seq._streams
-                for x in lst:
-                    if isinstance(x, net.AbstractStream):
-                        if getattr(x, attr) is not u:
-                            out.append(('listed-not-docked', k, fixed))
-                        if sum(1 for y in lst if y is x) > 1:
-                            out.append(('duplicate', k, fixed))
-                    else:
-                        if bool(x):
-                            out.append(('placeholder-truthy', k, fixed))
-                if fixed and len(lst) != size:
-                    out.append(('size', k, fixed))
-        for s in self.streams:
-            if s._sink is not None and not any(y is s for y in s._sink.ins._streams):
-                out.append(('docked-not-listed', 'i', s._sink._ins_size_is_fixed))
-            if s._source is not None and not any(y is s for y in s._source.outs._streams):
-                out.append(('docked-not-listed', 'o', s._source._outs_size_is_fixed))
-        return out
+        """Every object the harness can reach (all real streams, every placeholder object ever seen
+        in a port list, everything listed now) against every port list:
+        listed in u.ins <=> sink is u; listed in u.outs <=> source is u; never in two ports;
+        fixed-size lists keep their size; placeholders report no material."""
+        real, ph = [], []
+        sides = []
+        for u in self.units:
+            sides.append((u, 'i', u.ins._streams, '_sink', u._ins_size_is_fixed, u._N_ins))
+            sides.append((u, 'o', u.outs._streams, '_source', u._outs_size_is_fixed, u._N_outs))
+        objs = list(self.streams) + list(self.missing)
+        seen = set(map(id, objs))
+        for (u, k, lst, attr, fixed, size) in sides:
+            for x in lst:
+                if id(x) not in seen:
+                    seen.add(id(x)); objs.append(x)
+        for x in objs:
+            isph = not is_stream(x)
+            out = ph if isph else real
+            if isph and not is_placeholder(x):
+                out.append(('foreign-object', 'i', False)); continue
+            for (u, k, lst, attr, fixed, size) in sides:
+                cnt = sum(1 for y in lst if y is x)
+                docked = getattr(x, attr) is u
+                if cnt > 1: out.append(('two-ports' if isph else 'duplicate', k, fixed))
+                if cnt and not docked: out.append(('listed-not-docked', k, fixed))
+                if docked and not cnt: out.append(('docked-not-listed', k, fixed))
+            if isph:
+                material = bool(x)
+                for attr in ('F_mol', 'F_mass', 'F_vol'):
+                    try:
+                        if getattr(x, attr, 0): material = True
+                    except Exception: pass
+                if hasattr(x, 'isempty'):
+                    try:
+                        if not x.isempty(): material = True
+                    except Exception: pass
+                if material: out.append(('reports-material', 'i', False))
+        size_f = [('size', k, fixed) for (u, k, lst, attr, fixed, size) in sides if fixed and len(lst) != size]
+        return ([('s', f) for f in real] + [('s', f) for f in size_f] + [('m', f) for f in ph])
 
     # -- operations ------------------------------------------------------------
     def ports_arg(self, t):
@@ -167,7 +223,10 @@ class Universe:
             for x in items.split(','):
                 if x == 'new': res.append('')       # a string ID: '' lets the registry pick one
                 elif x == 'none': res.append(None)
-                else: res.append(self.ref(x))
+                else:
+                    r = self.ref(x)
+                    if not is_stream(r): raise BadRef(x)   # placeholder objects are not constructor items
+                    res.append(r)
         return res
 
     def apply(self, line):
@@ -222,7 +281,8 @@ class Universe:
                 if x == '-': return None
                 if x == '[]': return []
                 return [self.portref(y) for y in x.split(',')]
-            self.unit(t[1]).disconnect(inlets=lst(t[2]), outlets=lst(t[3]), join_ends=(t[4] == '1'))
+            un, inl, outl = self.unit(t[1]), lst(t[2]), lst(t[3])
+            un.disconnect(inlets=inl, outlets=outl, join_ends=(t[4] == '1'))
         elif op == 'tpo':
             self.unit(t[1]).take_place_of(self.unit(t[2]))
         elif op == 'rww':
@@ -237,19 +297,26 @@ class Universe:
             net.Connection(su, si, self.ref(t[2]), ki, ku).reconnect()
         elif op == 'uins':
             def pr(x): return None if x == '-' else self.portref(x)
-            self.unit(t[1]).insert(self.ref(t[2]), inlet=pr(t[3]), outlet=pr(t[4]))
+            un, st, a, b = self.unit(t[1]), self.ref(t[2]), pr(t[3]), pr(t[4])
+            un.insert(st, inlet=a, outlet=b)
         elif op == 'pipe_s_i_u':
-            self.ref(t[1]) - int(t[2]) - self.unit(t[3])
+            st, un = self.ref(t[1]), self.unit(t[3])
+            st - int(t[2]) - un
         elif op == 'pipe_u_i_s':
-            self.unit(t[1]) ** int(t[2]) ** self.ref(t[3])
+            un, st = self.unit(t[1]), self.ref(t[3])
+            un ** int(t[2]) ** st
         elif op == 'pipe_u_u':
-            self.unit(t[1]) - self.unit(t[2])
+            a, b = self.unit(t[1]), self.unit(t[2])
+            a - b
         elif op == 'pipe_ss_u':
-            tuple(self.optrefs(t[1])) - self.unit(t[2])
+            ss, un = tuple(self.optrefs(t[1])), self.unit(t[2])
+            ss - un
         elif op == 'pipe_u_ss':
-            self.unit(t[1]) - tuple(self.optrefs(t[2]))
+            un, ss = self.unit(t[1]), tuple(self.optrefs(t[2]))
+            un - ss
         else:
             raise ErrorInOp('unknown op ' + line)
+        self.register()
         return pre + self.show()
 
 
@@ -257,14 +324,28 @@ def opkind(line):
     return line.split(' ')[0]
 
 
+def moves(before, after):
+    """how the pointers of the placeholder objects that existed before the operation changed"""
+    kinds = set()
+    for (b, a) in zip(before, after):
+        for x, y in zip(b, a):
+            if x is y: continue
+            if x is not None and y is not None: kinds.add('unit-to-unit')
+            elif x is None: kinds.add('docked-on-new-side')
+            else: kinds.add('undocked')
+    return kinds
+
+
 def run_ops(ops):
     U = Universe()
     outs, failures, dead = [], [], False
     changed = False
+    phmoves = []          # (op_index, op kind, kind of move)
     prev = U.show()
     for i, line in enumerate(ops):
         if dead:
             outs.append('dead'); continue
+        before = U.pointers()
         try:
             o = U.apply(line)
         except ErrorInOp:
@@ -284,21 +365,31 @@ def run_ops(ops):
         now = U.show()
         if now != prev and opkind(line) not in ('unit', 'stream'): changed = True
         prev = now
+        for mk in moves(before, U.pointers()):
+            phmoves.append((i, opkind(line), mk))
         if not failures:     # once the invariant is broken every later state is tainted: stop judging
-            for clause, k, fixed in U.invariant_failures()[:1]:
-                failures.append({'signature': f'{opkind(line)}/{"fixed" if fixed else "var"}:{clause}',
-                                 'op_index': i,
-                                 'what': f'after `{line}` a port list and a stream disagree: {clause} '
+            for who, (clause, k, fixed) in U.invariant_failures()[:1]:
+                fx = 'fixed' if fixed else 'var'
+                what = 'a stream' if who == 's' else 'a placeholder object'
+                sig = f'{opkind(line)}/{fx}:{clause}' if who == 's' else f'{opkind(line)}/{fx}:placeholder:{clause}'
+                failures.append({'signature': sig, 'op_index': i,
+                                 'what': f'after `{line}` a port list and {what} disagree: {clause} '
                                          f'({"fixed" if fixed else "variable"}-size {"ins" if k == "i" else "outs"})'})
-    return U, outs, failures, changed
+    return U, outs, failures, changed, phmoves
 
 
 def run_impl(case: Case) -> ImplResult:
-    U, outs, failures, changed = run_ops(case.ops)
+    U, outs, failures, changed, phmoves = run_ops(case.ops)
     tags = sorted({opkind(l) for l in case.ops})
     tags += ['err:' + o[4:] for o in outs if o.startswith('err=')]
-    return ImplResult(model_in=list(case.ops), outs=outs, failures=failures, tags=tags,
-                      nontrivial=(tuple(case.ops) if changed else None))
+    tags += sorted({f'ph-moved:{mk}' for (_, _, mk) in phmoves})
+    tags += sorted({f'ph-moved:unit-to-unit/{k}' for (_, k, mk) in phmoves if mk == 'unit-to-unit'})
+    if any(t[0] in 'm' or (t[0] == 'p' and '.' in t) for l in case.ops for t in l.replace(',', ' ').split(' ')[1:] if t):
+        tags.append('placeholder-operand')
+    res = ImplResult(model_in=list(case.ops), outs=outs, failures=failures, tags=tags,
+                     nontrivial=(tuple(case.ops) if changed else None))
+    res.phmoves = phmoves
+    return res
 
 
 def compare(impl_line, model_line):
@@ -322,31 +413,69 @@ def model_tags(line):
     return ['pre=0'] if line.startswith('pre=0') else []
 
 
+def extra_evidence(executed, model_outs):
+    """how often existing placeholder objects were carried between units, and how often that
+    happened inside the preconditions (model pre=1 at that operation)"""
+    ops_total = ops_pre = cases_any = cases_pre = 0
+    by_kind = {}
+    for (case, res), mo in zip(executed, model_outs):
+        pm = [x for x in getattr(res, 'phmoves', []) if x[2] == 'unit-to-unit']
+        if pm: cases_any += 1
+        seen_pre = False
+        for (i, k, _) in pm:
+            ops_total += 1
+            inpre = i < len(mo) and mo[i].startswith('pre=1')
+            if inpre:
+                ops_pre += 1; seen_pre = True
+                by_kind[k] = by_kind.get(k, 0) + 1
+        if seen_pre: cases_pre += 1
+    return {'placeholder_moves': {'ops_moving_a_placeholder_unit_to_unit': ops_total,
+                                  'of_which_within_preconditions': ops_pre,
+                                  'cases_with_such_an_op': cases_any,
+                                  'cases_with_such_an_op_within_preconditions': cases_pre,
+                                  'within_preconditions_by_op_kind': dict(sorted(by_kind.items()))}}
 # --------------------------------------------------------------------------
 # generation
 # --------------------------------------------------------------------------
 
-def gen_prelude(rng, n_units, n_streams):
-    ops = []
-    shapes = [rng.choice(SHAPES) for _ in range(n_units)]
-    # guarantee fixed and variable lists on both sides
-    if n_units >= 3:
-        shapes[0], shapes[1], shapes[2] = SHAPES[0], SHAPES[1], SHAPES[2]
-    for _ in range(n_streams):
-        ops.append('stream')
-    for (ni, fi, no, fo) in shapes:
-        ops.append(None)  # placeholder, filled adaptively (constructor args may use streams)
-    return ops, shapes
+def placeholder_name(rng, U, x):
+    """`mN`, or (sometimes) the positional name of a port that holds it now"""
+    if rng.random() < 0.3:
+        spots = [(k, u, i) for u, un in enumerate(U.units) for k in 'io'
+                 for i, y in enumerate(U.seq(k, u)._streams) if y is x]
+        if spots:
+            k, u, i = rng.choice(spots)
+            return f'p{k}.{u}.{i}'
+    return U.name(x)
 
 
-def choose_stream(rng, U, k, allow_placeholder=0.15, undocked_only=False, not_in=None):
-    """a stream reference; mostly valid w.r.t. the preconditions"""
+def choose_placeholder(rng, U, k, undocked_only=False, not_in=None):
+    """a placeholder operand, mostly one that keeps the operation inside the preconditions: for an
+    assignment one that is not in the target list (preferably one listed at ANOTHER unit, so that it
+    has to move), for append/insert one that is not docked on this side"""
+    attr = '_sink' if k == 'i' else '_source'
+    allm = list(U.missing)
+    if not allm: return None
+    if undocked_only:
+        good = [m for m in allm if getattr(m, attr) is None]
+    elif not_in is not None:
+        good = [m for m in allm if not any(y is m for y in not_in)]
+    else:
+        good = allm
+    if good and rng.random() < 0.9:
+        # prefer objects that are docked somewhere (on either side): those are the ones that travel
+        live = [m for m in good if m._sink is not None or m._source is not None]
+        x = rng.choice(live) if live and rng.random() < 0.8 else rng.choice(good)
+    else:
+        x = rng.choice(allm)
+    return placeholder_name(rng, U, x)
+
+
+def choose_stream(rng, U, k, allow_placeholder=0.2, undocked_only=False, not_in=None):
+    """a stream (or placeholder) reference; mostly valid w.r.t. the preconditions"""
     if rng.random() < allow_placeholder:
-        cands = [(k2, u, i) for u, un in enumerate(U.units) for k2 in 'io'
-                 for i, x in enumerate(U.seq(k2, u)._streams) if not isinstance(x, net.AbstractStream)]
-        if cands:
-            k2, u, i = rng.choice(cands)
-            return f'p{k2}.{u}.{i}'
+        r = choose_placeholder(rng, U, k, undocked_only=undocked_only, not_in=not_in)
+        if r is not None: return r
     attr = '_sink' if k == 'i' else '_source'
     idx = list(range(len(U.streams)))
     if undocked_only:
@@ -373,10 +502,10 @@ def gen_op(rng, U):
     kind = rng.choices(
         ['set', 'slice', 'sliceall', 'ins', 'app', 'ext', 'rep', 'pop', 'rem', 'clr', 'emp', 'dsrc', 'dsnk',
          'disc', 'udisc', 'tpo', 'rww', 'rwn', 'recon', 'uins', 'pipe_s_i_u', 'pipe_u_i_s', 'pipe_u_u',
-         'pipe_ss_u', 'pipe_u_ss', 'stream', 'unit'],
+         'pipe_ss_u', 'pipe_u_ss', 'stream', 'unit', 'slicefrom'],
         [14, 6, 4, 6, 6, 3, 6, 7, 6, 3, 3, 3, 3,
-         3, 5, 3, 2, 3, 3, 5, 4, 4, 4,
-         3, 3, 2, 1])[0]
+         3, 5, 4, 3, 3, 3, 5, 4, 4, 6,
+         3, 3, 2, 1, 4])[0]
     if kind == 'stream': return 'stream'
     if kind == 'unit':
         return gen_unit(rng, U, rng.choice(SHAPES))
@@ -386,11 +515,28 @@ def gen_op(rng, U):
         i = rng.randrange(n + 1) if (n == 0 or rng.random() < 0.1) else rng.randrange(n)
         if kind == 'set' and rng.random() < 0.12:
             return f'set {k} {u} {i} none'
-        s = choose_stream(rng, U, k, allow_placeholder=(0.1 if kind == 'set' else 0), not_in=seq._streams)
+        s = choose_stream(rng, U, k, allow_placeholder=(0.25 if kind == 'set' else 0.02), not_in=seq._streams)
         if s is None: return 'stream'
         if kind == 'set': return f'set {k} {u} {i} {s}'
         if kind == 'pipe_s_i_u': return f'pipe_s_i_u {s} {i} {u}'
         return f'pipe_u_i_s {u} {i} {s}'
+    if kind == 'slicefrom':
+        # slice assignment of (a slice of) another port list, placeholders included:
+        # `V.ins[a:b] = W.outs[c:d]` — the shape that carries vacant ports from unit to unit
+        v = rng.randrange(nu); k2 = rng.choice('io')
+        src = U.seq(k2, v)._streams
+        if not src: return f'sliceall {k} {u} []'
+        c = rng.randrange(len(src)); d = rng.randrange(c + 1, len(src) + 1)
+        a = rng.randrange(n + 1); b = rng.randrange(a, n + 1)
+        if rng.random() < 0.5: a, b = 0, n
+        kept = seq._streams[:a] + seq._streams[b:]
+        items = [x for x in src[c:d] if not any(y is x for y in kept) or rng.random() < 0.05]
+        if fixed:
+            room = seq._size - len(kept)
+            if rng.random() < 0.95: items = items[:max(room, 0)]
+        names = [U.name(x) if is_stream(x) else placeholder_name(rng, U, x) for x in items]
+        it = ','.join(names) if names else '[]'
+        return f'slice {k} {u} {a} {b} {it}'
     if kind in ('slice', 'sliceall', 'pipe_ss_u', 'pipe_u_ss'):
         if kind == 'pipe_ss_u': k = 'i'
         if kind == 'pipe_u_ss': k = 'o'
@@ -408,7 +554,7 @@ def gen_op(rng, U):
         for _ in range(m):
             if rng.random() < 0.15 and kind in ('slice', 'sliceall'):
                 items.append('none'); continue
-            s = choose_stream(rng, U, k, allow_placeholder=0.05, not_in=used)
+            s = choose_stream(rng, U, k, allow_placeholder=0.2, not_in=used)
             if s is None: continue
             items.append(s)
             try: used.append(U.ref(s))
@@ -422,7 +568,7 @@ def gen_op(rng, U):
         if not items: return f'sliceall o {u} []'
         return f'pipe_u_ss {u} {it}'
     if kind in ('ins', 'app'):
-        s = choose_stream(rng, U, k, allow_placeholder=0.08, undocked_only=True)
+        s = choose_stream(rng, U, k, allow_placeholder=0.2, undocked_only=True)
         if s is None: return 'stream'
         if kind == 'app': return f'app {k} {u} {s}'
         return f'ins {k} {u} {rng.randrange(n + 2)} {s}'
@@ -430,18 +576,19 @@ def gen_op(rng, U):
         m = rng.randrange(3)
         items = []
         for _ in range(m):
-            s = choose_stream(rng, U, k, allow_placeholder=0.05, undocked_only=True)
+            s = choose_stream(rng, U, k, allow_placeholder=0.15, undocked_only=True)
             if s and s not in items: items.append(s)
         return f'ext {k} {u} {",".join(items) if items else "[]"}'
     if kind == 'rep':
         if n == 0: return 'stream'
         i = rng.randrange(n)
-        a = f'p{k}.{u}.{i}' if not isinstance(seq._streams[i], net.AbstractStream) or rng.random() < 0.3 \
-            else U.name(seq._streams[i])
+        x = seq._streams[i]
+        a = (f'p{k}.{u}.{i}' if rng.random() < 0.5 else U.name(x)) if (not is_stream(x) or rng.random() < 0.3) \
+            else U.name(x)
         if rng.random() < 0.08:
             a = choose_stream(rng, U, k) or a
         if rng.random() < 0.15: return f'rep {k} {u} {a} none'
-        b = choose_stream(rng, U, k, allow_placeholder=0.1, not_in=seq._streams)
+        b = choose_stream(rng, U, k, allow_placeholder=0.2, not_in=seq._streams)
         if b is None: return 'stream'
         return f'rep {k} {u} {a} {b}'
     if kind == 'pop':
@@ -451,7 +598,7 @@ def gen_op(rng, U):
         if n and rng.random() < 0.92:
             i = rng.randrange(n)
             x = seq._streams[i]
-            a = U.name(x) if isinstance(x, net.AbstractStream) else f'p{k}.{u}.{i}'
+            a = U.name(x) if (is_stream(x) or rng.random() < 0.5) else f'p{k}.{u}.{i}'
         else:
             a = choose_stream(rng, U, k)
             if a is None: return 'stream'
@@ -459,7 +606,7 @@ def gen_op(rng, U):
     if kind in ('clr', 'emp'):
         return f'{kind} {k} {u}'
     if kind in ('dsrc', 'dsnk', 'disc'):
-        s = choose_stream(rng, U, k, allow_placeholder=0.15)
+        s = choose_stream(rng, U, k, allow_placeholder=0.3)
         if s is None: return 'stream'
         return f'{kind} {s}'
     if kind == 'udisc':
@@ -474,7 +621,8 @@ def gen_op(rng, U):
             out = []
             for i in idxs:
                 x = lst[i]
-                if isinstance(x, net.AbstractStream) and rng.random() < 0.6: out.append(U.name(x))
+                if is_stream(x) and rng.random() < 0.6: out.append(U.name(x))
+                elif not is_stream(x) and rng.random() < 0.03: out.append(U.name(x))   # rejected by the code
                 else: out.append(f'i{i}')
             return ','.join(out) if out else '[]'
         inl, outl = pick(un.ins), pick(un.outs)
@@ -486,7 +634,7 @@ def gen_op(rng, U):
     if kind == 'rwn':
         return f'rwn {u}'
     if kind == 'recon':
-        s = choose_stream(rng, U, k, allow_placeholder=0)
+        s = choose_stream(rng, U, k, allow_placeholder=0.1)
         if s is None: return 'stream'
         def port(kk):
             if rng.random() < 0.35: return '-'
@@ -495,10 +643,11 @@ def gen_op(rng, U):
             return f'{v}:{rng.randrange(m)}'
         return f'recon {port("o")} {s} {port("i")}'
     if kind == 'uins':
-        # a stream with both ends connected is the intended use
-        both = [n for n, s in enumerate(U.streams) if s._source is not None and s._sink is not None]
+        # a stream (sometimes a placeholder that connects two units) with both ends connected is the intended use
+        both = [U.name(s) for s in U.streams + (U.missing if rng.random() < 0.2 else [])
+                if s._source is not None and s._sink is not None]
         anyc = list(range(len(U.streams)))
-        if both and rng.random() < 0.85: s = f's{rng.choice(both)}'
+        if both and rng.random() < 0.85: s = rng.choice(both)
         elif anyc: s = f's{rng.choice(anyc)}'
         else: return 'stream'
         un = U.units[u]
@@ -507,7 +656,8 @@ def gen_op(rng, U):
             if r < 0.45 or not seq._streams: return '-'
             i = rng.randrange(len(seq._streams))
             x = seq._streams[i]
-            if isinstance(x, net.AbstractStream) and rng.random() < 0.5: return U.name(x)
+            if is_stream(x) and rng.random() < 0.5: return U.name(x)
+            if not is_stream(x) and rng.random() < 0.03: return U.name(x)   # rejected by the code
             return f'i{i}'
         return f'uins {u} {s} {pr(un.ins, "i")} {pr(un.outs, "o")}'
     return 'stream'
@@ -556,55 +706,108 @@ def gen_case(rng, n_units, n_streams, length):
     return Case(ops, {})
 
 
+# The empty three-unit / five-stream universe.  Its placeholder objects:
+#   U0.i=[m0,m1] U0.o=[m2]   U1.i=[m3] U1.o=[m4,m5]   U2.i=[m6,m7] U2.o=[m8,m9]
 BASE = ['stream'] * 5 + ['unit 2 1 M 1 1 M', 'unit 1 0 M 2 1 M', 'unit 2 1 M 2 0 M']
+# A connected line U0 -s1-> U1 -s2-> U2 with vacant ports, plus a bare one-in/one-out unit U3:
+#   U0.i=[s0,m0] U0.o=[s1]   U1.i=[s1] U1.o=[s2,m1]   U2.i=[s2,s3] U2.o=[s4]   U3.i=[m2] U3.o=[m3]
+BASE2 = ['stream'] * 5 + ['unit 2 1 L:s0 1 1 L:s1', 'unit 1 0 L:s1 2 1 L:s2', 'unit 2 1 L:s2,s3 2 0 L:s4',
+                          'unit 1 1 M 1 1 M']
 
 
 def alphabet():
     """the finite operation alphabet over the 3-unit / 5-stream universe (indices 0..1, whole-list
-    slices of up to two streams); used for exhaustive enumeration"""
+    slices of up to two streams, placeholder objects of every unit as operands); used for exhaustive
+    enumeration"""
     ops = []
     S = [f's{i}' for i in range(5)]
+    M = ['m0', 'm4', 'm6', 'm8']           # one placeholder of U0.ins, U1.outs, U2.ins, U2.outs
     for u in range(3):
         for k in 'io':
             for i in (0, 1):
-                for s in S + ['none']:
+                for s in S + ['none'] + M:
                     ops.append(f'set {k} {u} {i} {s}')
                 ops.append(f'pop {k} {u} {i}')
-                for s in S[:3]:
+                for s in S[:3] + M[:2]:
                     ops.append(f'ins {k} {u} {i} {s}')
-            for s in S:
+            for s in S + M[:2]:
                 ops.append(f'app {k} {u} {s}')
+            for s in S + [f'p{k}.{u}.0']:
                 ops.append(f'rem {k} {u} {s}')
             ops.append(f'clr {k} {u}'); ops.append(f'emp {k} {u}')
             ops.append(f'sliceall {k} {u} []')
             for s in S[:3]:
                 ops.append(f'sliceall {k} {u} {s}')
             ops.append(f'sliceall {k} {u} s0,s1'); ops.append(f'sliceall {k} {u} s3,none')
+            ops.append(f'sliceall {k} {u} m3,s0'); ops.append(f'sliceall {k} {u} m9')
+            ops.append(f'slice {k} {u} 1 2 m5')
             ops.append(f'rep {k} {u} p{k}.{u}.0 s4'); ops.append(f'rep {k} {u} p{k}.{u}.0 none')
+            ops.append(f'rep {k} {u} p{k}.{u}.0 m1'); ops.append(f'rep {k} {u} p{k}.{u}.0 m5')
         for v in range(3):
             if v != u:
-                ops.append(f'tpo {u} {v}'); ops.append(f'pipe_u_u {u} {v}')
+                ops.append(f'tpo {u} {v}'); ops.append(f'pipe_u_u {u} {v}'); ops.append(f'rww {u} {v}')
         ops.append(f'rwn {u}')
         ops.append(f'udisc {u} - - 0'); ops.append(f'udisc {u} - - 1'); ops.append(f'udisc {u} i0 i0 0')
         for s in S[:2]:
             ops.append(f'uins {u} {s} - -')
-    for s in S:
+    for s in S + ['m0', 'm2', 'm3', 'm5']:
+        ops += [f'dsrc {s}', f'dsnk {s}', f'disc {s}']
+    return ops
+
+
+def alphabet2():
+    """operation alphabet over the connected four-unit universe BASE2: the unit-level and slice-level
+    operations that carry vacant ports (placeholder objects) from one unit to another"""
+    ops = []
+    S = [f's{i}' for i in range(5)]
+    M = ['m0', 'm1', 'm2', 'm3']
+    for u in range(4):
+        for v in range(4):
+            if v != u:
+                ops.append(f'tpo {u} {v}'); ops.append(f'pipe_u_u {u} {v}'); ops.append(f'rww {u} {v}')
+        ops.append(f'rwn {u}')
+        ops.append(f'udisc {u} - - 0'); ops.append(f'udisc {u} - - 1')
+        for s in S[:3] + M[:2]:
+            ops.append(f'uins {u} {s} - -')
+        ops.append(f'uins {u} s1 i0 i0'); ops.append(f'uins {u} s2 - i1')
+        for k in 'io':
+            for m in M:
+                ops.append(f'set {k} {u} 0 {m}'); ops.append(f'set {k} {u} 1 {m}')
+            for v in range(4):
+                if v != u:
+                    ops.append(f'sliceall {k} {u} p{k}.{v}.0,p{k}.{v}.1')
+                    ops.append(f'slice {k} {u} 0 1 p{k}.{v}.1')
+            ops.append(f'pop {k} {u} 0'); ops.append(f'pop {k} {u} 1')
+            ops.append(f'emp {k} {u}'); ops.append(f'clr {k} {u}')
+            ops.append(f'set {k} {u} 0 none'); ops.append(f'set {k} {u} 1 s3')
+            for m in M[:2]:
+                ops.append(f'app {k} {u} {m}'); ops.append(f'rem {k} {u} {m}')
+    for s in S[:3] + M:
         ops += [f'dsrc {s}', f'dsnk {s}', f'disc {s}']
     return ops
 
 
 def generate(rng, tier, index, nworkers):
     b = budget(tier)
-    A = alphabet()
-    # exhaustive part: every sequence of length 1 (quick) / 2 (thorough) over the alphabet from the
-    # empty 3-unit / 5-stream universe; plus every single op from random reachable states
+    A, A2 = alphabet(), alphabet2()
+    # exhaustive part: every sequence of length 1 (quick) / 2 (thorough) over the alphabets from the
+    # empty 3-unit / 5-stream universe and from the connected 4-unit universe; plus every single op
+    # from random reachable states
     if tier == 'thorough':
-        pairs = [(a, c) for a in A for c in A]
+        pairs = [(BASE, a, c) for a in A for c in A] + [(BASE2, a, c) for a in A2 for c in A2]
         for j in range(index, len(pairs), nworkers):
-            yield Case(BASE + list(pairs[j]), {'exhaustive': 2})
+            base, a, c = pairs[j]
+            yield Case(base + [a, c], {'exhaustive': 2})
     else:
-        for j in range(index, len(A), nworkers):
-            yield Case(BASE + [A[j]], {'exhaustive': 1})
+        singles = [(BASE, a) for a in A] + [(BASE2, a) for a in A2]
+        for j in range(index, len(singles), nworkers):
+            base, a = singles[j]
+            yield Case(base + [a], {'exhaustive': 1})
+        # the depth-2 sequences made of two placeholder-carrying operations (a sub-space of the thorough tier)
+        movers = [a for a in A2 if a.split(' ')[0] in ('tpo', 'pipe_u_u', 'rww', 'rwn', 'uins', 'sliceall')]
+        pairs = [(a, c) for a in movers for c in movers]
+        for j in range(index, len(pairs), nworkers):
+            yield Case(BASE2 + list(pairs[j]), {'exhaustive': 'movers-2'})
     for _ in range(6 if tier == 'quick' else 40):
         pre = gen_case(rng, 3, 5, rng.randrange(2, 10)).ops
         # keep only if the prefix has the standard universe shape (3 units, 5 streams at the front)
@@ -627,10 +830,6 @@ def generate(rng, tier, index, nworkers):
 
 
 def protect_prefix(case):
-    n = 0
-    for l in case.ops:
-        if l.startswith('stream') or l.startswith('unit'): n += 1
-        else: break
     return 0
 
 
@@ -641,6 +840,17 @@ def corpus():
         Case(['unit 2 1 M 1 1 F', 'udisc 0 - s0 0']),
         Case(['unit 1 1 F 1 1 F', 'unit 2 1 M 2 0 M', 'unit 1 1 M 1 1 M', 'pipe_s_i_u s1 0 2', 'unit 2 1 F 1 1 F',
               'uins 3 s1 i1 -']),
+        # placeholder objects carried from unit to unit (the three shapes of seeded change C18-4)
+        Case(['stream'] * 4 + ['unit 2 1 L:s0 2 1 L:s1', 'unit 2 1 M 2 1 L:s2', 'unit 2 1 M 2 1 L:s3',
+                               'pipe_u_u 0 1', 'pipe_u_u 0 2']),
+        Case(['stream'] * 2 + ['unit 2 1 L:s0 2 1 L:s1', 'unit 2 1 M 2 1 M', 'tpo 1 0']),
+        Case(['stream'] * 2 + ['unit 2 1 L:s0 2 1 L:s1', 'unit 2 1 M 2 1 M', 'rww 0 1']),
+        Case(['stream'] * 4 + ['unit 2 1 L:s0 2 1 L:s1,s2', 'unit 2 1 L:s1 2 1 L:s3', 'unit 1 1 M 1 1 M',
+                               'uins 2 s1 - -', 'rwn 2']),
+        # a placeholder taken from another unit's list by item assignment, then popped, appended, disconnected
+        Case(BASE + ['set i 0 0 m6', 'set o 1 0 m6', 'pop i 0 0', 'app i 1 m6', 'dsrc m6', 'disc m6']),
+        # outside the preconditions: a placeholder assigned to a second port of its own list
+        Case(BASE + ['set i 0 0 pi.0.1']),
     ]
 
 
